@@ -288,7 +288,15 @@ def array_contract_path(
         return ()
 
     if cache and can_hash_optimize(optimize.__class__):
-        key = hash_contraction(inputs, output, size_dict, optimize)
+        try:
+            key = hash_contraction(inputs, output, size_dict, optimize)
+        except TypeError:
+            # e.g. an explicit path whose steps are lists: don't cache
+            key = None
+    else:
+        key = None
+
+    if key is not None:
         try:
             path = _PATH_CACHE[key]
         except KeyError:
